@@ -1,7 +1,8 @@
 (* C17 — context-managed transformations write back through the inverse transformation.  Property theorems only. *)
 From Coq Require Import ZArith List String Bool Permutation.
 Import ListNotations.
-From TD Require Import Model.C17_Inverse Proofs.C17_InverseP Gen.C17_registry.
+From TD Require Import Model.C17_Inverse Proofs.C17_InverseP Gen.C17_registry Model.C17_Elem Proofs.C17_ElemP Proofs.C17_SpellP.
+From TD Require Import Model.C17_Ctx Proofs.C17_CtxP.
 Open Scope string_scope.
 Open Scope Z_scope.
 
@@ -120,14 +121,114 @@ Theorem C17_writeback_unlocked : forall out inv,
 Proof. exact writeback_unlocked. Qed.
 Print Assumptions C17_writeback_unlocked.
 
+(* a key added to the yielded object of a LOCKED original never reaches the original: silently skipped when the two have a
+   key in common, KeyError (None) when they have none *)
+Theorem C17_writeback_locked_new_key : forall out inv k v r,
+  In (k, v) inv -> lookup out k = None -> writeback true out inv = Some r -> lookup r k = None.
+Proof. exact writeback_locked_new_key. Qed.
+Print Assumptions C17_writeback_locked_new_key.
+Theorem C17_writeback_locked_disjoint : forall out inv, inv <> [] ->
+  (forall kv, In kv inv -> lookup out (fst kv) = None) -> writeback true out inv = None.
+Proof. exact writeback_locked_disjoint. Qed.
+Print Assumptions C17_writeback_locked_disjoint.
+
 (* nested blocks: inverses are popped in LIFO order and the queue is restored *)
 Theorem C17_nested_blocks : forall (Op : Type) (o : @obj Op),
   match exit_ok (enter (enter o)) with
-  | Some (x1, o1) => x1 = last_op o /\ exit_ok o1 = Some (last_op o, o)
+  | Some (x1, o1) => x1 = C17_Inverse.last_op o /\ exit_ok o1 = Some (C17_Inverse.last_op o, o)
   | None => False
   end.
 Proof. exact @nested_blocks. Qed.
 Print Assumptions C17_nested_blocks.
+
+(* ------------------------------------------------------------------ element maps (deepening round) *)
+(* [undoes c r sh ysh] (Model/C17_Elem.v): the call r on the yielded object gives back the shape sh, every valid
+   multi-index i of the original comes back to i, and every valid multi-index j of the yielded object is written back to
+   the one position of the original it is the image of.  For every rank, every dims, every argument spelling
+   (python's binding [forward_call] vs the re-parsing [reverse] of the recorded (args, kwargs)). *)
+Theorem C17_elem_roundtrip : forall op, In op ["transpose"; "permute"; "view"; "flatten"; "squeeze"; "unsqueeze"] ->
+  forall s sh c ysh, Forall (fun x => 0 <= x) sh -> forward_call op s = Some c -> shape_of c sh = Some ysh ->
+    undoes c (reverse op s sh (zlen ysh)) sh ysh.
+Proof. exact elem_roundtrip. Qed.
+Print Assumptions C17_elem_roundtrip.
+
+(* unflatten: full statement, false of the code (D201) *)
+Definition C17_elem_roundtrip_unflatten_full_statement : Prop :=
+  forall s sh c ysh, Forall (fun x => 0 <= x) sh -> forward_call "unflatten" s = Some c -> shape_of c sh = Some ysh ->
+    undoes c (reverse "unflatten" s sh (zlen ysh)) sh ysh.
+Theorem C17_elem_roundtrip_unflatten_partial : forall s sh c ysh,
+  Forall (fun x => 0 <= x) sh -> forward_call "unflatten" s = Some c -> shape_of c sh = Some ysh -> (2 <= unflat_len c)%nat ->
+  undoes c (reverse "unflatten" s sh (zlen ysh)) sh ysh.
+Proof. exact elem_roundtrip_unflatten_partial. Qed.
+Print Assumptions C17_elem_roundtrip_unflatten_partial.
+Theorem C17_elem_roundtrip_unflatten_refuted : exists s sh c ysh,
+  Forall (fun x => 0 <= x) sh /\ forward_call "unflatten" s = Some c /\ shape_of c sh = Some ysh
+  /\ shape_of (reverse "unflatten" s sh (zlen ysh)) ysh = None.
+Proof. exact elem_roundtrip_unflatten_refuted. Qed.
+Print Assumptions C17_elem_roundtrip_unflatten_refuted.
+
+(* per operation, on normalised calls: what the reverse call must be *)
+Theorem C17_undoes_view : forall l sh ysh, Forall (fun x => 0 <= x) sh -> shape_of (CView l) sh = Some ysh ->
+  undoes (CView l) (CView sh) sh ysh.
+Proof. exact undoes_view. Qed.
+Print Assumptions C17_undoes_view.
+Theorem C17_undoes_permute : forall l sh ysh p, perm_dims l (zlen sh) = Some p -> shape_of (CPermute l) sh = Some ysh ->
+  undoes (CPermute l) (CPermute (inv_perm p)) sh ysh.
+Proof. exact undoes_permute. Qed.
+Print Assumptions C17_undoes_permute.
+Theorem C17_undoes_flatten : forall a b sh ysh a' b', Forall (fun x => 0 <= x) sh ->
+  flatten_dims a b (zlen sh) = Some (a', b') -> shape_of (CFlatten a b) sh = Some ysh ->
+  undoes (CFlatten a b) (CUnflatten a' (seg sh a' b')) sh ysh.
+Proof. exact undoes_flatten. Qed.
+Print Assumptions C17_undoes_flatten.
+Theorem C17_undoes_squeeze : forall d sh ysh, shape_of (CSqueeze d) sh = Some ysh ->
+  undoes (CSqueeze d) (if zlen ysh =? zlen sh then CIdentity else CUnsqueeze d) sh ysh.
+Proof. exact undoes_squeeze. Qed.
+Print Assumptions C17_undoes_squeeze.
+(* the position arithmetic underneath *)
+Theorem C17_unravel_ravel : forall sh i, valid_idx sh i = true -> unravel sh (ravel sh i) = i.
+Proof. exact unravel_ravel. Qed.
+Print Assumptions C17_unravel_ravel.
+Theorem C17_ravel_unravel : forall sh k, Forall (fun x => 0 < x) sh -> 0 <= k < prodZ sh ->
+  valid_idx sh (unravel sh k) = true /\ ravel sh (unravel sh k) = k.
+Proof. exact ravel_unravel. Qed.
+Print Assumptions C17_ravel_unravel.
+
+(* ------------------------------------------------------------------ protocol: lock state, exception path, queue (deepening round) *)
+(* any nesting of `with td.lock_():` / `with td.unlock_():` blocks, sequences and raised exceptions (Exception or bare
+   BaseException) leaves the lock flag and the queue as they were — normal and exceptional exit (repair D6/D53) *)
+Theorem C17_lock_reverted : forall p o, no_bare p = true ->
+  exists o' e, run true p o = Some (o', e) /\ locked o' = locked o /\ queue o' = queue o.
+Proof. exact lock_reverted. Qed.
+Print Assumptions C17_lock_reverted.
+Theorem C17_lock_reverted_without_repair_refuted :
+  exists p o o' e, no_bare p = true /\ run false p o = Some (o', e) /\ locked o' <> locked o.
+Proof. exact lock_reverted_without_repair_refuted. Qed.
+Print Assumptions C17_lock_reverted_without_repair_refuted.
+(* arbitrary nesting over several objects (re-entering the same object, entering the yielded object of a yielded
+   object, decorated calls overwriting _last_op in between, dead originals): every queue restored, LIFO *)
+Theorem C17_queues_restored : forall l, balanced l -> forall h log, in_heap h l ->
+  exists h' log', run_ev l h log = Some (h', log') /\ same_queues h h'.
+Proof. exact queues_restored. Qed.
+Print Assumptions C17_queues_restored.
+Theorem C17_block_pops_own_entry : forall i e body, balanced body -> forall h log, in_heap h (EEnter i :: body ++ [EExit i e])%list ->
+  exists h' log', run_ev (EEnter i :: body ++ [EExit i e])%list h log = Some (h', (log' ++ [(i, last_op (nth i h dflt))])%list).
+Proof. exact block_pops_own_entry. Qed.
+Print Assumptions C17_block_pops_own_entry.
+Theorem C17_reenter_same_object : forall o n rc, last_op o = Some rc -> o_op rc = OpShape n -> o_alive rc = true ->
+  forall e1, is_exception e1 = false ->
+  exists o1, exit_ true (enter_ o) e1 = ExitOk o1 (Some (OpShape n))
+    /\ queue o1 = queue o /\ last_op o1 = Some rc
+    /\ exists o2, exit_ true (enter_ o1) ExcNone = ExitOk o2 (Some (OpShape n)) /\ queue o2 = queue o.
+Proof. exact reenter_same_object. Qed.
+Print Assumptions C17_reenter_same_object.
+(* the seeded breakage C17-2 (an __enter__ that clears _last_op) in the model's terms *)
+Theorem C17_reenter_with_clearing_enter_refuted : exists o rc o1 o2,
+  last_op o = Some rc /\ o_op rc = OpShape "transpose" /\ o_alive rc = true
+  /\ exit_ true (enter_clearing o) ExcNone = ExitOk o1 (Some (OpShape "transpose"))
+  /\ exit_ true (enter_clearing o1) ExcNone = ExitOk o2 None.
+Proof. exact reenter_with_clearing_enter_refuted. Qed.
+Print Assumptions C17_reenter_with_clearing_enter_refuted.
 
 (* non-vacuity *)
 Example C17_ex_permute : Permutation [2; 0; 1] (map Z.of_nat (seq 0 3))
@@ -135,3 +236,31 @@ Example C17_ex_permute : Permutation [2; 0; 1] (map Z.of_nat (seq 0 3))
 Proof. split; [|reflexivity]. cbn. apply perm_trans with [0; 2; 1]; [apply perm_swap|apply perm_skip, perm_swap]. Qed.
 Example C17_ex_flatten : reverse "flatten" {| pos := [VInt (-2)]; kw := [] |} [2; 3; 4] 2 = CUnflatten 1 [3; 4].
 Proof. reflexivity. Qed.
+Example C17_ex_elem_flatten :
+  forward_call "flatten" {| pos := [VInt (-2)]; kw := [] |} = Some (CFlatten (-2) (-1))
+  /\ shape_of (CFlatten (-2) (-1)) [2; 3; 4] = Some [2; 12]
+  /\ push (CFlatten (-2) (-1)) [2; 3; 4] [1; 2; 3] = Some [1; 11]
+  /\ push (reverse "flatten" {| pos := [VInt (-2)]; kw := [] |} [2; 3; 4] 2) [2; 12] [1; 11] = Some [1; 2; 3].
+Proof. repeat split; reflexivity. Qed.
+Example C17_ex_elem_permute_partial :
+  shape_of (CPermute [-2; -3]) [2; 3; 4] = Some [3; 2; 4] /\ push (CPermute [-2; -3]) [2; 3; 4] [1; 2; 3] = Some [2; 1; 3].
+Proof. split; reflexivity. Qed.
+Example C17_ex_elem_view :
+  shape_of (CView [4; -1]) [2; 3; 4] = Some [4; 6] /\ push (CView [4; -1]) [2; 3; 4] [1; 2; 3] = Some [3; 5]
+  /\ push (CView [2; 3; 4]) [4; 6] [3; 5] = Some [1; 2; 3].
+Proof. repeat split; reflexivity. Qed.
+Example C17_ex_lock_blocks :
+  no_bare (PUnlock (PSeq (PLock (PRaise ExcException)) PSkip)) = true
+  /\ run true (PUnlock (PSeq (PLock (PRaise ExcException)) PSkip)) {| locked := true; last_op := None; queue := [] |}
+     = Some ({| locked := true; last_op := Some (rec_of OpLock); queue := [] |}, ExcException).
+Proof. split; reflexivity. Qed.
+Example C17_ex_balanced : balanced [EEnter 0; EEnter 1; ECall 0 None; EEnter 0; EExit 0 ExcNone; EExit 1 ExcException; EExit 0 ExcNone].
+Proof.
+  apply (b_block 0 ExcNone [EEnter 1; ECall 0 None; EEnter 0; EExit 0 ExcNone; EExit 1 ExcException]).
+  apply (b_block 1 ExcException [ECall 0 None; EEnter 0; EExit 0 ExcNone]).
+  apply (b_app [ECall 0 None] [EEnter 0; EExit 0 ExcNone]); [constructor|]. apply (b_block 0 ExcNone []). constructor.
+Qed.
+Example C17_ex_writeback_locked_new_key :
+  writeback true [("a", (0%nat, 10))] [("a", (100%nat, 500)); ("z", (101%nat, 501))] = Some [("a", (0%nat, 500))]
+  /\ writeback true [("a", (0%nat, 10))] [("z", (101%nat, 501))] = None.
+Proof. split; reflexivity. Qed.
